@@ -102,5 +102,27 @@ func TestC02(t *testing.T) {
 		},
 		Run:  runC02,
 		Trim: trimHist,
+		// every step ratio from 2 to 128 with a coarse interval known to exactly the required fraction (all of it for
+		// xFilesFactor 1, half of it for 0.5, one point in five for 0.2): how k/n is rounded differs by ratio
+		Fixed: func() []HistCase {
+			var out []HistCase
+			for r := int64(2); r <= 128; r++ {
+				for _, fr := range [][2]int64{{1, 1}, {1, 2}, {1, 5}, {3, 10}} {
+					if r%fr[1] != 0 {
+						continue
+					}
+					k := r * fr[0] / fr[1]
+					l := Layout{Archives: []Arch{{Step: 1, Points: 2 * r}, {Step: r, Points: 4}}, Method: 2, XFF: float32(float64(fr[0]) / float64(fr[1]))}
+					now := int64(1500000000)
+					base := alignDown(now-r, r)
+					var pts []MPoint
+					for i := int64(0); i < k; i++ {
+						pts = append(pts, MPoint{T: base + i, V: F64(float64(i + 1))})
+					}
+					out = append(out, HistCase{L: l, Now: now, Ops: []Op{{Kind: "batch", ID: 0, Points: pts}}})
+				}
+			}
+			return out
+		},
 	})
 }
